@@ -20,10 +20,10 @@ func init() {
 		Rule:        "the real wpool.Pool alone; jobs are closures that bump per-job counters and record start/finish stamps, gates keep workers busy as long as the harness wants. S1: all workers gated, a burst of Sends must return while the gates are still closed (promptness decided logically), then gates open, quiescence is awaited through the pool's own state (deferred list, flusher try-lock, channel length read under the pool's list mutex) and every accepted job must have run exactly once; the state 'deferred list non-empty and flusher lock free' is a stuck state (nothing but a further deferred Send can move those jobs) and is reported. S2: the flusher-exit window steered through hook gates (flusher saw the list empty <-> a deferred Send finds the flusher busy). S3: Stop with jobs in flight: no job may be running when Stop returns and none may start afterwards. S4: seeded sequences of Run/Send/Stop (Send before Run, concurrent Stop/Stop, Run-Stop-Run cycles) from several goroutines: no panic, no dead-lock (watchdog + goroutine dumps), at-most-once. evaluations = jobs sent; distinct_nontrivial = distinct (scenario, path taken: direct/deferred, window outcome, call pattern) tuples",
 		Assumptions: []string{"VerifState is read under the pool's own list mutex", "watchdog firing without a clear dead-lock is inconclusive"},
 		Roles: map[string]Role{
-			"s1burst":  {N: func(t string) int { return tierN(t, 120, 6000) }, Case: c16Burst},
-			"s2window": {N: func(t string) int { return tierN(t, 40, 2000) }, Case: c16Window},
-			"s3stop":   {N: func(t string) int { return tierN(t, 80, 6000) }, Case: c16Stop},
-			"s4order":  {N: func(t string) int { return tierN(t, 96, 6000) }, Case: c16Order, Batch: 4},
+			"s1burst":  {N: func(t string) int { return tierN(t, 120, 20000) }, Case: c16Burst},
+			"s2window": {N: func(t string) int { return tierN(t, 40, 6000) }, Case: c16Window},
+			"s3stop":   {N: func(t string) int { return tierN(t, 80, 20000) }, Case: c16Stop},
+			"s4order":  {N: func(t string) int { return tierN(t, 99, 9000) }, Case: c16Order, Batch: 4},
 		},
 	})
 }
